@@ -768,6 +768,7 @@ func (c *FnCtx) bindParams(fc *FuncContract, fn *ssa.Function, args []Val) map[s
 			}
 		}
 	}
+	c.eng.aliasEnv(fn, env)
 	return env
 }
 
@@ -1022,6 +1023,7 @@ func (c *FnCtx) finishContractOld(p *Path, fc *FuncContract, fn *ssa.Function, r
 			env["result"] = r
 		}
 	}
+	c.eng.aliasEnv(fn, env)
 	mk(p, fc.Ensures)
 	advanced := false
 	for _, r := range rs {
